@@ -11,3 +11,7 @@ LEVEL_TEXT = "Deductive proof of the exit-code mapping over abstract per-file ou
 LEVEL_NOTE = "Trusts the pyvc encoding, z3/cvc5, argparse; that 'cannot be read' surfaces as OSError from the readers is a bounded table (known finding K-7 for ODS)."
 TECHNIQUE = "contract-based deductive verification (VCs from the ast of the real functions, z3/cvc5) + bounded end-to-end exit-code table"
 UNITS = [VIO.unit_reader_rows(), CK.unit_check_resets(), APP.unit_app_validate(), APP.unit_process(), APP.unit_main(), APP.unit_set_options(), APP.unit_set_cid_from_path(), APP.unit_app_init(), APP.unit_c18_table(), APP.unit_k7_witness()]
+from contracts import rowio_excel as XL, rowio_ods as OD, rowio_delim as RD, rowio_fixed as FX
+UNITS += [XL.unit_excel_rows().also("C18"), OD.unit_ods_rows().also("C18"), RD.unit_delimited_rows().also("C18"), FX.unit_fixed_rows().also("C18")]
+from props import _groups as _G
+UNITS = _G.with_groups(PROPERTY, UNITS, _G.APPLICATION, _G.READERS, _G.VALIDATION, _G.CHECKS, _G.CID)
